@@ -12,7 +12,7 @@ from ..rt import Outcome, ev, notrace, conc
 from ..xh import Harness
 from ..main import PropSpec
 
-BEH = ["cooperative", "swallows-exceptions", "blocked-in-syscall", "interpreter-lock-held", "already-dead", "never-run", "lingers-after-result"]
+BEH = ["cooperative", "swallows-exceptions", "blocked-in-syscall", "interpreter-lock-held", "already-dead", "never-run", "lingers-after-result", "holds-the-lock-briefly-then-swallows"]
 OPS = ["wait", "terminate-force", "terminate-noforce", "is_alive", "close"]
 TMOS = [0, 1, 3]
 LONG = 500          # model seconds an unresponsive target stays unresponsive
@@ -44,6 +44,8 @@ def make(W, kind, beh):
         tgt, args = T.sleeper, [LONG]
     elif beh == 6:
         tgt, args = T.linger, [LONG]
+    elif beh == 7:
+        tgt, args = T.gil_then_swallow, [2, LONG]
     else:
         tgt, args = T.gil_sleeper, [LONG]
     w = W.make(kind, tgt, args=args)
@@ -138,7 +140,7 @@ def _run(W, kind, beh, ops):
         else:
             if dt > SLACK:
                 return "c04.close-blocks", True
-    return None, beh in (1, 2, 3, 6)
+    return None, beh in (1, 2, 3, 6, 7)
 
 
 _params = OrderedDict([("kind", (0, 5)), ("beh", (0, len(BEH) - 1)), ("nops", (0, 4)),
@@ -159,9 +161,9 @@ H_HIST = Harness(
     "hist", "vf.props.c04:h_hist", _params,
     tiers={
         "quick": {"ranges": {"nops": (0, 2)}, "fixed": {"o3": 0, "t3": 0, "o4": 0, "t4": 0}, "partition": ["kind", "beh"], "timeout": 300,
-                  "filter": (lambda f: not (f["beh"] in (3, 6) and f["kind"] in (0, 3))),
+                  "filter": (lambda f: not (f["beh"] in (3, 6, 7) and f["kind"] in (0, 3))),
                   "twin_fixed": {"kind": 1, "beh": 1}},
-        "thorough": {"ranges": {"nops": (0, 3)}, "fixed": {"o4": 0, "t4": 0}, "partition": ["kind", "beh", "nops", "o1"], "timeout": 1500, "filter": (lambda f: not (f["beh"] in (3, 6) and f["kind"] in (0, 3))), "twin_fixed": {"kind": 1, "beh": 1, "nops": 2, "o1": 1}},
+        "thorough": {"ranges": {"nops": (0, 3)}, "fixed": {"o4": 0, "t4": 0}, "partition": ["kind", "beh", "nops", "o1"], "timeout": 1500, "filter": (lambda f: not (f["beh"] in (3, 6, 7) and f["kind"] in (0, 3))), "twin_fixed": {"kind": 1, "beh": 1, "nops": 2, "o1": 1}},
     },
     functions=_FUNCS,
 )
@@ -173,7 +175,8 @@ SPEC = PropSpec(
         "unresponsive targets stay unresponsive for 500 model seconds: 'swallows' = loop of 1 s sleeps catching Exception; 'blocked in a system call' = one "
         "500 s sleep (no bytecode runs, an asynchronous exception cannot be delivered); 'interpreter lock held' = the same with every other thread of the "
         "child frozen (not applicable to thread workers: the caller shares that interpreter); 'lingers after result' = the target returns at once but leaves a "
-        "non-daemon thread behind, so the child process outlives its result by 500 s (process/remote kinds); none of them blocks SIGTERM",
+        "non-daemon thread behind, so the child process outlives its result by 500 s (process/remote kinds); 'holds the lock briefly' = 2 s with every other "
+        "thread frozen, then swallows exceptions (two terminate requests can queue up before the control thread runs); none of them blocks SIGTERM",
         "bound checked: elapsed <= 4 x timeout + 0.5 s; a call on a worker whose child was dead before the call must return True within 0.5 s",
         "truthfulness: True => the child (thread / process / backend process) is really gone; on thread workers terminate(force=True) is replaced by force=False",
     ],
